@@ -503,6 +503,11 @@ func runC19(r *core.Run) {
 							continue
 						}
 						r.Op(1)
+						evKind := ev.name
+						if i := strings.IndexAny(evKind, "(["); i > 0 {
+							evKind = evKind[:i]
+						}
+						r.Outcome(evKind + ":" + pan.Class)
 						add := func(kind, format string, a ...interface{}) {
 							kinds[kind] = true
 							if len(fails) < 8 {
